@@ -154,7 +154,7 @@ def eval_doc(case, preload=False):
         if gen_named:
             # known finding: a python/name tag that resolves to an existing *generator object* is mistaken by construct_object
             # for a two-step constructor and advanced; these effects are keyed apart, every other effect is judged as usual
-            adv = [p for p in mon.problems if "_native_gen" in p or "native-gen-" in p]
+            adv = [p for p in mon.problems if "_native_gen" in p or "native-gen-" in p or p == "python call into canary_imported.py:record"]
             if adv:
                 failures.append(Failure("generator-object-advanced:%s" % lname, "%s\ntext=%r" % (adv[:3], text[:300])))
                 mon.problems = [p for p in mon.problems if p not in adv]
